@@ -90,6 +90,7 @@ type Contract struct {
 	ParamTypes  []types.Type
 	Tags        []string
 	Requires    []Clause
+	Assumes     []Clause
 	Ensures     []Clause
 	EnsPanic    []Clause
 	Modifies    []ModEntry
@@ -164,7 +165,7 @@ type Lemma struct {
 	File   string
 }
 
-var clauseKW = []string{"stable-types", "stable", "loop-call", "requires", "ensures-on-panic", "ensures", "modifies", "loop", "assert-at", "trusted", "inline", "abstract-calls", "may-panic",
+var clauseKW = []string{"assumes", "stable-types", "stable", "loop-call", "requires", "ensures-on-panic", "ensures", "modifies", "loop", "assert-at", "trusted", "inline", "abstract-calls", "may-panic",
 	"allow-send", "arith", "let", "noalloc", "call-inline", "call-abstract", "callback", "path-limit", "implements", "var", "call", "assume", "assert", "havoc"}
 var topKW = []string{"func", "spec", "ghost", "axiom", "lemma", "package", "table"}
 
@@ -415,6 +416,15 @@ func (w *World) parseFuncContract(it rawItem, pkg *types.Package, external bool)
 		kw := startsWithKW(ln, clauseKW)
 		rest := strings.TrimSpace(strings.TrimPrefix(ln, kw))
 		switch kw {
+		case "assumes":
+			// an invariant of the surrounding system that is assumed inside the function and NOT checked at call sites
+			// (listed as an unchecked assumption in the evidence)
+			tags, src := parseTags(rest)
+			x, err := parseSpec(src)
+			if err != nil {
+				return err
+			}
+			c.Assumes = append(c.Assumes, Clause{Tags: tags, Expr: x, Src: src, Ord: len(c.Assumes)})
 		case "requires", "ensures", "ensures-on-panic":
 			tags, src := parseTags(rest)
 			tags, cname := splitTagNames(tags)
@@ -903,6 +913,7 @@ func (w *World) resolveImplements() error {
 		}
 		c.ImplContract = ic
 		c.Requires = append(append([]Clause{}, ic.Requires...), renumber(c.Requires, len(ic.Requires))...)
+		c.Assumes = append(append([]Clause{}, ic.Assumes...), c.Assumes...)
 		c.Ensures = append(append([]Clause{}, ic.Ensures...), renumber(c.Ensures, len(ic.Ensures))...)
 		c.Modifies = append(append([]ModEntry{}, ic.Modifies...), c.Modifies...)
 		c.ModAll = c.ModAll || ic.ModAll
